@@ -190,13 +190,14 @@ impl FinalityTracker {
                 FinalizationEvent::default()
             }
             // slot is already decided, a late notarization must not undo that
-            FinalizationStatus::Finalized(ref hash)
-            | FinalizationStatus::ImplicitlyFinalized(ref hash) => {
+            FinalizationStatus::Finalized(ref hash) => {
                 assert_eq!(hash, block_hash, "consensus safety violation");
                 self.status.insert(*slot, status);
                 FinalizationEvent::default()
             }
-            FinalizationStatus::ImplicitlySkipped => {
+            // a different block of this slot may be notarized but never finalized,
+            // while the chain continued on a notar-fallback certified block
+            FinalizationStatus::ImplicitlyFinalized(_) | FinalizationStatus::ImplicitlySkipped => {
                 self.status.insert(*slot, status);
                 FinalizationEvent::default()
             }
@@ -341,9 +342,9 @@ impl FinalityTracker {
                     self.status.insert(slot, status);
                     return;
                 }
-                FinalizationStatus::Notarized(hash) => {
-                    assert_eq!(hash, &block_hash, "consensus safety violation");
-                }
+                // a different block of this slot may hold a notarization certificate,
+                // it was never finalized and the chain continued on this block
+                FinalizationStatus::Notarized(_) => {}
                 FinalizationStatus::FinalPendingNotar => {}
                 FinalizationStatus::ImplicitlySkipped => {
                     panic!("consensus safety violation")
